@@ -436,8 +436,19 @@ pub fn evaluate(inp: &RefInput) -> Result<RefOut, RefErr> {
         };
         // nothing exported to a destination: the terms are zero, but they are zero *up to the rounding of
         // the flows whose difference they are*, so they keep the scale of those flows (factor magnitude <= 3)
+        // largest factor magnitude that could weight this carrier's exports (the derived cogeneration factor,
+        // fuel per unit of cogenerated electricity, can be far above the regulatory range)
+        let mut fmax: f64 = 3.0;
+        for x in facs.iter().filter(|x| &x.cr == cr) {
+            fmax = fmax.max(x.f.iter().fold(0.0f64, |a, b| a.max(b.abs())));
+        }
+        if cr == "ELECTRICIDAD" {
+            if let Some(fa) = f_cgn_a {
+                fmax = fmax.max(fa.0.iter().fold(0.0f64, |a, b| a.max(b.v.abs())));
+            }
+        }
         let nothing = |q: V| -> R3 {
-            let z = V { v: 0.0, s: 3.0 * q.s };
+            let z = V { v: 0.0, s: fmax * q.s };
             R3([z, z, z])
         };
         let (exp_nepus_a, exp_nepus_ab) = if exporting && exp_nepus_an.v != 0.0 && !exp_nepus_an.is_tiny() {
